@@ -5,7 +5,9 @@ impl CopiaSync {
 //@requires
         self.bs() > 0,
 //@ensures
-        res is Ok ==> sig_of(res->Ok_0, stream_of(&basis)) && res->Ok_0.block_size == self.bs(),
+        // block index is a u32: fewer than 2^32 blocks (same domain clause as AsyncCopiaSync::signature's precondition)
+        res is Ok ==> res->Ok_0.block_size == self.bs()
+            && (stream_of(&basis).len() < 0xFFFF_FFFF * (self.bs() as int) ==> sig_of(res->Ok_0, stream_of(&basis))),
         io_ok() ==> res is Ok,
 //@end
 //@extract file=src/sync.rs impl="Sync for CopiaSync" fn=delta
